@@ -506,7 +506,7 @@ func propC05(c *Check) {
 			c.Violated("R2", "rejected-notice @ "+FuncKey(apc), p.Pos(apc.Pos()), fmt.Sprintf("expected one append, one →CANCELED write and one record load; found %d/%d/%d reason=not-established", len(A), len(W0), len(gets)))
 		default:
 			a := A[0].(*ssa.Store)
-			okApp := r.E(a.Val) == "append(EthTxQueue.Get()#0.RejectedWithdrawals, $2.Id)"
+			okApp := concatAsAppend(r.E(a.Val)) == "append(EthTxQueue.Get()#0.RejectedWithdrawals, $2.Id)"
 			okKey := p.CallStr(gets[0]) == "Withdrawals.Get($2.Id["+i+"])"
 			inLoop := p.R(apc).blockReach(a.Block())[a.Block()]
 			// every iteration writes: from the load, the next load / the append is not reachable without the write
@@ -843,4 +843,15 @@ func (c *Check) accumulatorFlushed(f *ssa.Function, what string, apps []ssa.Inst
 		}
 	}
 	c.Held("R2", key, p.InstrPos(flush), "every collected notice reaches the queue before success, once")
+}
+
+
+var concat2Re = regexp.MustCompile(`^slices\.Concat\(\[(.*), ([^\[\],]*)\]\)$`)
+
+// concatAsAppend: slices.Concat(a, b) holds the elements of a followed by those of b, as append(a, b...) does.
+func concatAsAppend(s string) string {
+	if m := concat2Re.FindStringSubmatch(s); m != nil {
+		return "append(" + m[1] + ", " + m[2] + ")"
+	}
+	return s
 }
